@@ -25,38 +25,37 @@ def enum_index(db, enum, name):
 
 
 def check_uniform(log, bounds):
-    """Every logged comparison must be (symbol-form  op  constant) with the
-    constant strictly inside the contiguous representative range (L, R) of the
-    symbol, so that the singleton cells L+1..R-1 and the two rays (-inf,L], [R,inf)
-    are uniform for it.  bounds: sym -> (L, R)."""
+    """Every logged comparison must be uniform on every cell of the enumerated partition:
+       * symbol vs. constant: the critical points of the comparison (see SymVal.crit) lie strictly inside the contiguous
+         representative range (L, R) of the symbol, so the singleton cells L+1..R-1 and the two rays (-inf,L], [R,inf) are uniform;
+       * symbol vs. symbol: both belong to one ordering group (cells are weak orderings) or both range over {-1,0,1};
+       * symbols of a complete finite domain ('tri', 'finite*') need no argument."""
     for op, a, b, line in log:
-        sides = [a, b]
-        syms = [s for s in sides if s[0] != "const"]
-        consts = [s for s in sides if s[0] == "const"]
+        syms = [s for s in (a, b) if s[0] == "sym"]
+        consts = [s for s in (a, b) if s[0] == "const"]
         if len(syms) == 2:
             ga, gb = syms[0][2], syms[1][2]
             if ga is not None and ga == gb and ga.startswith("order"):
-                continue  # ordering cells: any comparison among the group is uniform
+                continue
             if ga == "tri" and gb == "tri":
-                continue  # both range over the complete finite set {-1,0,1}
+                continue
             raise AnalysisBroken("comparison between two symbolic inputs %s and %s (line %s) is outside the partition"
-                                 % (syms[0][0], syms[1][0], line))
+                                 % (syms[0][1], syms[1][1], line))
         if not syms:
             continue
-        sym, form, group = syms[0]
+        _, sym, group, crits, form = syms[0]
         c = consts[0][1]
         if group == "tri" or (group or "").startswith("finite"):
-            continue  # complete finite enumeration
+            continue
         if (group or "").startswith("order"):
             raise AnalysisBroken("ordering symbol %s compared with constant %r (line %s)" % (sym, c, line))
         if sym not in bounds:
             raise AnalysisBroken("no partition declared for symbol %s" % sym)
         L, R = bounds[sym]
-        cs = [c] if form == "id" else ([-c] if form == "neg" else [c, -c])
-        for cc in cs:
+        for cc in crits:
             if not (L < cc < R):
-                raise AnalysisBroken("comparison of %s with constant %r (line %s) is not uniform on the ray cells "
-                                     "of the partition [%d..%d]" % (sym, c, line, L, R))
+                raise AnalysisBroken("comparison of %s(%s) with constant %r (line %s) has a critical point at %s, outside the singleton "
+                                     "cells of the partition (%d..%d): the ray cells are not uniform for it" % (form, sym, c, line, cc, L, R))
 
 
 def sgn(x):
@@ -885,3 +884,295 @@ def closing_vertex_rule(db, chk, cfg, rule="ADD.closing-vertex"):
                               "redundant only for closed paths - for an open path it is the end point of the last segment"
                               % ("drops" if got else "keeps", is_open, equal), where(node), cfg=cfg)
     return n
+
+
+# ---------------------------------------------------------------------------
+# winding-count bookkeeping (C01, C13): updates at a crossing and at insertion
+# ---------------------------------------------------------------------------
+
+WREPS = [-5, -4, -3, -2, -1, 0, 1, 2, 3, 4, 5]
+WBOUNDS = (-4, 4)         # -3..3 singleton cells; <= -4 and >= 4 are the rays (two representatives each: 4 and 5)
+
+
+def farther(a, b):
+    """Of the winding numbers of the two sides of an edge, the one farther from zero (they differ by one)."""
+    return a if abs(a) > abs(b) else b
+
+
+def _near(wc):
+    return wc - sgn(wc)
+
+
+def table_crossing_update(db, chk, cfg, rule="T.wind-crossing"):
+    """The 'UPDATE WINDING COUNTS' step of IntersectEdges(e1, e2): e1 is immediately left of e2 and the two swap.
+    Definition: crossing an edge from left to right adds its wind_dx to the winding number of its own path type;
+    wind_cnt is the winding of the side of the edge farther from zero, wind_cnt2 the other type's winding of the region."""
+    from ..astq import if_parts
+    f = db.one("ClipperBase::IntersectEdges")
+    site = None
+    for s in kids(f.body):
+        if s.get("kind") == "IfStmt":
+            cond, then, els = if_parts(s)
+            cs = canon(cond)
+            if "polytype" in cs and "e1." in cs and "e2." in cs and "==" in cs and els is not None and "wind_cnt" in canon(then):
+                site = s
+                break
+    if site is None:
+        raise AnalysisBroken("winding update `if (e1.local_min->polytype == e2.local_min->polytype)` not found in IntersectEdges")
+    n = 0
+    bad = []
+    for fill in FILL:
+        for same in (True, False):
+            for d1 in (1, -1):
+                for d2 in (1, -1):
+                    for w1 in WREPS:
+                        for w2 in WREPS:
+                            for c1 in (WREPS if not same else [0]):
+                                for c2 in (WREPS if not same else [0]):
+                                    # reachability
+                                    if fill == "EvenOdd":
+                                        if w1 not in (1, -1) or w2 not in (1, -1) or c1 not in (0, 1) or c2 not in (0, 1):
+                                            continue
+                                    elif w1 == 0 or w2 == 0:
+                                        continue
+                                    if not same and (abs(w1) > 1 or abs(w2) > 1) and (w1, w2) != (w1, w2):
+                                        pass
+                                    if not same and (w1 not in (1, -1, 2) or w2 not in (1, -1, 2)):
+                                        continue      # own winding numbers are not touched in this branch: three representatives suffice
+                                    log = []
+                                    env = {"fillrule_": enum_index(db, "FillRule", fill),
+                                           "e1.local_min->polytype": 0, "e2.local_min->polytype": 0 if same else 1,
+                                           "e1.wind_dx": d1, "e2.wind_dx": d2,
+                                           "e1.wind_cnt": SymVal(w1, "w1", log), "e2.wind_cnt": SymVal(w2, "w2", log),
+                                           "e1.wind_cnt2": SymVal(c1, "c1", log), "e2.wind_cnt2": SymVal(c2, "c2", log)}
+                                    it = Interp(db, env, log)
+                                    try:
+                                        it.exec(site)
+                                    except Unsupported as e:
+                                        raise AnalysisBroken("cannot interpret the winding update of IntersectEdges: %s" % e)
+                                    check_uniform(log, {"w1": WBOUNDS, "w2": WBOUNDS, "c1": WBOUNDS, "c2": WBOUNDS})
+                                    g = {k: (it.env[k].v if isinstance(it.env[k], SymVal) else it.env[k])
+                                         for k in ("e1.wind_cnt", "e2.wind_cnt", "e1.wind_cnt2", "e2.wind_cnt2")}
+                                    if same:
+                                        if fill == "EvenOdd":
+                                            want = {"e1.wind_cnt": w2, "e2.wind_cnt": w1}     # magnitudes stay 1; the code exchanges them
+                                            ok = abs(g["e1.wind_cnt"]) == 1 and abs(g["e2.wind_cnt"]) == 1
+                                        else:
+                                            want = {"e1.wind_cnt": farther(w1 + d2, _near(w1) + d2), "e2.wind_cnt": farther(w2 - d1, _near(w2) - d1)}
+                                            ok = g["e1.wind_cnt"] == want["e1.wind_cnt"] and g["e2.wind_cnt"] == want["e2.wind_cnt"]
+                                        ok = ok and g["e1.wind_cnt2"] == c1 and g["e2.wind_cnt2"] == c2
+                                    else:
+                                        if fill == "EvenOdd":
+                                            want = {"e1.wind_cnt2": 1 - c1, "e2.wind_cnt2": 1 - c2}
+                                        else:
+                                            want = {"e1.wind_cnt2": c1 + d2, "e2.wind_cnt2": c2 - d1}
+                                        ok = g["e1.wind_cnt2"] == want["e1.wind_cnt2"] and g["e2.wind_cnt2"] == want["e2.wind_cnt2"] \
+                                            and g["e1.wind_cnt"] == w1 and g["e2.wind_cnt"] == w2
+                                    n += 1
+                                    cell = {"fill": fill, "same_type": same, "dx": (d1, d2), "wind_cnt": (w1, w2), "wind_cnt2": (c1, c2), "after": g}
+                                    chk.instance(rule, cell if n % 499 == 1 else None, ok=ok)
+                                    if not ok:
+                                        bad.append((cell, want))
+    for cell, want in bad[:1]:
+        chk.violation(rule, f.qual, "%s/same=%s/dx=%s/wc=%s/wc2=%s" % (cell["fill"], cell["same_type"], cell["dx"], cell["wind_cnt"], cell["wind_cnt2"]),
+                      "winding counts after a crossing deviate from the definition on %d reachable cell(s); first: %s, expected %s"
+                      % (len(bad), cell, want), where(site), detail=[b[0] for b in bad[:10]], cfg=cfg)
+    return n
+
+
+def table_insertion_wind(db, chk, cfg, rule="T.wind-insert"):
+    """SetWindCountForClosedPathEdge, NonZero/Positive/Negative branch: wind_cnt of an edge inserted immediately to the
+    right of its nearest same-type neighbour e2.  Definition: the region right of e2 has winding  wc2 (if wc2 and dx2 have
+    the same sign: filling on the right) else wc2 - sgn(wc2); crossing the new edge adds its wind_dx; wind_cnt is the
+    side farther from zero."""
+    from ..astq import if_parts
+    f = db.one("ClipperBase::SetWindCountForClosedPathEdge")
+    site = None
+    for x in walk(f.body):
+        if x.get("kind") == "IfStmt":
+            cond, then, els = if_parts(x)
+            cs = canon(cond)
+            if "e2->wind_cnt * e2->wind_dx" in cs and "< 0" in cs and els is not None:
+                site = x
+                break
+    if site is None:
+        raise AnalysisBroken("`if (e2->wind_cnt * e2->wind_dx < 0)` not found in SetWindCountForClosedPathEdge")
+    n = 0
+    bad = []
+    for dx2 in (1, -1):
+        for dx in (1, -1):
+            for wc2 in WREPS:
+                if wc2 == 0:
+                    continue
+                log = []
+                env = {"e2->wind_cnt": SymVal(wc2, "wc2", log), "e2->wind_dx": dx2, "e.wind_dx": dx, "e.wind_cnt": 0,
+                       "e.local_min->is_open": False}
+                it = Interp(db, env, log)
+                try:
+                    it.exec(site)
+                except Unsupported as e:
+                    raise AnalysisBroken("cannot interpret SetWindCountForClosedPathEdge: %s" % e)
+                check_uniform(log, {"wc2": WBOUNDS})
+                got = it.env["e.wind_cnt"]
+                got = got.v if isinstance(got, SymVal) else got
+                r = wc2 if wc2 * dx2 > 0 else _near(wc2)
+                want = farther(r, r + dx) if r != 0 and r + dx != 0 else (dx if r == 0 else r)
+                n += 1
+                cell = {"e2.wind_cnt": wc2, "e2.wind_dx": dx2, "e.wind_dx": dx, "e.wind_cnt": got}
+                chk.instance(rule, cell if n % 7 == 1 else None, ok=(got == want))
+                if got != want:
+                    bad.append((cell, want))
+    for cell, want in bad[:1]:
+        chk.violation(rule, f.qual, "wc2=%d/dx2=%d/dx=%d" % (cell["e2.wind_cnt"], cell["e2.wind_dx"], cell["e.wind_dx"]),
+                      "wind_cnt of a newly inserted edge deviates from the definition on %d cell(s); first: %s, expected %d" % (len(bad), cell, want),
+                      where(site), cfg=cfg)
+    # structure of the wind_cnt2 accumulation: other-type closed edges between the neighbour and e contribute their wind_dx
+    txt = canon(f.body)
+    ok2 = "(e.wind_cnt2 += e2->wind_dx)" in txt and "(e.wind_cnt2 = e2->wind_cnt2)" in txt
+    n += 1
+    chk.instance(rule, {"obligation": "wind_cnt2 starts from the neighbour's and adds wind_dx of the other-type closed edges in between", "cfg": cfg}, ok=ok2)
+    if not ok2:
+        chk.violation(rule, f.qual, "wind_cnt2", "the accumulation of wind_cnt2 (start from e2->wind_cnt2, += e2->wind_dx per other-type closed edge) changed",
+                      f.where, cfg=cfg)
+    return n
+
+
+def table_crossing_dispatch(db, chk, cfg, rule="T.cross-dispatch", debug=False):
+    """The closed-path part of IntersectEdges as a whole (winding update + 'process the intersection'):
+    starting from a consistent state (an edge is 'hot', i.e. carries output, iff it lies on the solution boundary for its
+    winding counts), the calls it makes (AddLocalMaxPoly / AddLocalMinPoly / AddOutPt / SwapOutrecs) must leave each edge
+    hot iff it lies on the solution boundary for its *updated* counts.  Oracle: oracle_closed() before and after, with
+    the update taken from the definition."""
+    from ..astq import if_parts
+    from ..evalx import _Return
+    f = db.one("ClipperBase::IntersectEdges")
+    stmts = kids(f.body)
+    start = None
+    for i, s in enumerate(stmts):
+        if s.get("kind") == "IfStmt":
+            cond, then, els = if_parts(s)
+            cs = canon(cond)
+            if "polytype" in cs and "e1." in cs and "e2." in cs and "==" in cs and els is not None and "wind_cnt" in canon(then):
+                start = i
+                break
+    if start is None:
+        raise AnalysisBroken("winding update not found in IntersectEdges")
+    tail = stmts[start:]
+    n = 0
+    bad = []
+    reps = [-3, -2, -1, 0, 1, 2, 3]
+    bounds = {"w1": (-3, 3), "w2": (-3, 3), "c1": (-3, 3), "c2": (-3, 3), "w1*w2": (-3, 3)}
+    for fill in FILL:
+        for ct in CLIP[1:]:
+            for t1 in PTYPE:
+                for t2 in PTYPE:
+                    same = t1 == t2
+                    for d1 in (1, -1):
+                        for d2 in (1, -1):
+                            for w1 in reps:
+                                for w2 in reps:
+                                    for c1 in reps:
+                                        # in the same region just left of the crossing the two edges see the same other-type winding
+                                        # when they are of the same type; for different types c1/c2 are tied to the partner's counts
+                                        for c2 in reps:
+                                            if fill == "EvenOdd":
+                                                if w1 not in (1, -1) or w2 not in (1, -1) or c1 not in (0, 1) or c2 not in (0, 1):
+                                                    continue
+                                            elif w1 == 0 or w2 == 0:
+                                                continue
+                                            if not _consistent_before(fill, same, d1, d2, w1, w2, c1, c2):
+                                                continue
+                                            h1 = oracle_closed(fill, ct, t1, w1, c1)
+                                            h2 = oracle_closed(fill, ct, t2, w2, c2)
+                                            for front1 in ((True, False) if h1 else (False,)):
+                                                for same_or in ((True, False) if (h1 and h2) else (False,)):
+                                                    log = []
+                                                    calls = []
+
+                                                    def hook(name, argv, node, calls=calls, front1=front1):
+                                                        if name in ("AddLocalMaxPoly", "AddLocalMinPoly", "AddOutPt", "SwapOutrecs", "SetZ"):
+                                                            calls.append(name)
+                                                            return 1
+                                                        if name == "IsFront":
+                                                            return front1
+                                                        return NotImplemented
+                                                    env = {"fillrule_": enum_index(db, "FillRule", fill), "cliptype_": enum_index(db, "ClipType", ct),
+                                                           "fillpos": enum_index(db, "FillRule", "Positive"),
+                                                           "e1.local_min->polytype": enum_index(db, "PathType", t1),
+                                                           "e2.local_min->polytype": enum_index(db, "PathType", t2),
+                                                           "e1.wind_dx": d1, "e2.wind_dx": d2,
+                                                           "e1.wind_cnt": SymVal(w1, "w1", log), "e2.wind_cnt": SymVal(w2, "w2", log),
+                                                           "e1.wind_cnt2": SymVal(c1, "c1", log), "e2.wind_cnt2": SymVal(c2, "c2", log),
+                                                           "e1.outrec": (7 if h1 else None), "e2.outrec": ((7 if same_or else 8) if h2 else None),
+                                                           "pt": 0, "zCallback_": None}
+                                                    it = Interp(db, env, log, call_hook=hook)
+                                                    try:
+                                                        try:
+                                                            for s in tail:
+                                                                it.exec(s)
+                                                        except _Return:
+                                                            pass
+                                                    except Unsupported as e:
+                                                        raise AnalysisBroken("cannot interpret the closed-path part of IntersectEdges: %s" % e)
+                                                    check_uniform(log, bounds)
+                                                    # hot status after, from the calls made
+                                                    a1, a2 = h1, h2
+                                                    for c in calls:
+                                                        if c == "AddLocalMaxPoly":
+                                                            a1, a2 = False, False
+                                                        elif c == "AddLocalMinPoly":
+                                                            a1, a2 = True, True
+                                                        elif c == "SwapOutrecs":
+                                                            a1, a2 = a2, a1
+                                                    # definition of the counts after the crossing
+                                                    if same:
+                                                        if fill == "EvenOdd":
+                                                            nw1, nw2 = w2, w1
+                                                        else:
+                                                            nw1 = farther(w1 + d2, _near(w1) + d2)
+                                                            nw2 = farther(w2 - d1, _near(w2) - d1)
+                                                        nc1, nc2 = c1, c2
+                                                    else:
+                                                        nw1, nw2 = w1, w2
+                                                        if fill == "EvenOdd":
+                                                            nc1, nc2 = 1 - c1, 1 - c2
+                                                        else:
+                                                            nc1, nc2 = c1 + d2, c2 - d1
+                                                    want1 = oracle_closed(fill, ct, t1, nw1, nc1) if (fill != "EvenOdd" or True) else h1
+                                                    want2 = oracle_closed(fill, ct, t2, nw2, nc2)
+                                                    n += 1
+                                                    ok = (a1, a2) == (want1, want2)
+                                                    cell = {"fill": fill, "clip": ct, "types": (t1, t2), "dx": (d1, d2), "wc": (w1, w2), "wc2": (c1, c2),
+                                                            "hot_before": (h1, h2), "e1_front": front1, "same_outrec": same_or, "calls": list(calls),
+                                                            "hot_after": (a1, a2), "on_boundary_after": (want1, want2)}
+                                                    chk.instance(rule, cell if n % 2003 == 1 else None, ok=ok)
+                                                    if not ok:
+                                                        bad.append(cell)
+    if debug:
+        return n, bad
+    for cell in bad[:1]:
+        chk.violation(rule, f.qual, "%s/%s/%s/dx=%s/wc=%s/wc2=%s" % (cell["clip"], cell["fill"], cell["types"], cell["dx"], cell["wc"], cell["wc2"]),
+                      "after a crossing the edges that carry output are not the edges on the solution boundary (%d cell(s)); first: %s"
+                      % (len(bad), cell), f.where, detail=bad[:10], cfg=cfg)
+    return n
+
+
+def _consistent_before(fill, same, d1, d2, w1, w2, c1, c2):
+    """Geometric consistency of the counts of two AEL-adjacent edges e1 | e2 (e1 immediately left of e2) just below their
+    crossing: the region between them is e1's right side and e2's left side."""
+    def right_of(w, d):      # winding (own type) of the region to the right of an edge
+        return w if w * d > 0 else _near(w)
+
+    def left_of(w, d):
+        return _near(w) if w * d > 0 else w
+    if fill == "EvenOdd":
+        if same:
+            return c1 == c2
+        # different types: the region between them: e2 sees e1's type on its left ... parity bookkeeping only
+        return True
+    if same:
+        # same path type: the region between them has one own-type winding number, and the same other-type winding
+        return right_of(w1, d1) == left_of(w2, d2) and c1 == c2
+    # different types: e1's wind_cnt2 is the winding of e2's type in the region where e1 lies... e1 lies on the border of the
+    # middle region, whose e2-type winding is left_of(w2, d2); likewise e2's wind_cnt2 is e1's type in the middle region
+    return c1 == left_of(w2, d2) and c2 == right_of(w1, d1)
